@@ -517,7 +517,311 @@ def generate(src: Path) -> dict[str, str]:
                + "namespace Gen\n\n")
         gl = "".join(f"-- guard {k}: {g}\n" for k, gs in guards.items() if SIGS[k]["mod"] == mod for g in gs)
         files[mod] = hdr + "\n".join(parts) + "\n" + gl + "end Gen\n"
+    files["Utils"] = generate_utils(src)
     return files
+
+
+
+# ------------------------------------------------------------------------------------------
+# utils.check_scalar / utils.auto_check  ->  Gen/Utils.lean  (Python values: Basic/PyVal.lean)
+# ------------------------------------------------------------------------------------------
+TYP_NAMES = {"float": ".float", "int": ".int", "bool": ".bool", "str": ".str", "Sequence": ".seq", "dict": ".dict"}
+CMP_FN = {ast.Lt: "PyVal.pyLt", ast.LtE: "PyVal.pyLe", ast.Gt: "PyVal.pyGt", ast.GtE: "PyVal.pyGe"}
+CHECK_KW = ("typ", "ge", "gt", "le", "lt", "ne", "in_")
+
+
+def typ_list(e: ast.expr) -> list[str]:
+    if isinstance(e, ast.BinOp) and isinstance(e.op, ast.BitOr):
+        return typ_list(e.left) + typ_list(e.right)
+    if isinstance(e, ast.Constant) and e.value is None:
+        return [".none"]
+    if isinstance(e, ast.Name) and e.id in TYP_NAMES:
+        return [TYP_NAMES[e.id]]
+    raise Unsupported(f"typ expression {ast.unparse(e)}")
+
+
+def pyval_lit(e: ast.expr) -> str:
+    if isinstance(e, ast.Constant):
+        v = e.value
+        if v is None:
+            return "PyVal.none"
+        if isinstance(v, bool):
+            return f"(PyVal.bool {'true' if v else 'false'})"
+        if isinstance(v, int):
+            return f"(PyVal.int {v})" if v >= 0 else f"(PyVal.int ({v}))"
+        if isinstance(v, float):
+            num, den = v.as_integer_ratio()
+            return f"(PyVal.float (XR.fin (({num} : ℚ) / {den})))"
+        if isinstance(v, str):
+            return f"(PyVal.str \"{v}\")"
+    if isinstance(e, ast.UnaryOp) and isinstance(e.op, ast.USub) and isinstance(e.operand, ast.Constant):
+        return pyval_lit(ast.Constant(value=-e.operand.value))
+    if (isinstance(e, ast.Call) and isinstance(e.func, ast.Name) and e.func.id == "float"
+            and len(e.args) == 1 and isinstance(e.args[0], ast.Constant)):
+        t = {"inf": "XR.pinf", "+inf": "XR.pinf", "-inf": "XR.ninf", "nan": "XR.nan"}.get(e.args[0].value)
+        if t:
+            return f"(PyVal.float {t})"
+    raise Unsupported(f"literal {ast.unparse(e)}")
+
+
+def check_args(call: ast.Call) -> str:
+    """keyword arguments of a check_scalar(...) call -> a CheckArgs structure literal"""
+    parts = []
+    for kw in call.keywords:
+        if kw.arg == "name":
+            continue
+        if kw.arg not in CHECK_KW:
+            raise Unsupported(f"check_scalar keyword {kw.arg}")
+        if kw.arg == "typ":
+            parts.append(f"typ := some [{', '.join(typ_list(kw.value))}]")
+        elif kw.arg == "in_":
+            if not isinstance(kw.value, (ast.Set, ast.Tuple, ast.List)):
+                raise Unsupported("in_ is not a literal collection")
+            parts.append(f"in_ := some [{', '.join(pyval_lit(x) for x in kw.value.elts)}]")
+        else:
+            parts.append(f"{kw.arg} := some {pyval_lit(kw.value)}")
+    return "{ " + ", ".join(parts) + " }"
+
+
+def is_call_to(e: ast.expr, fname: str) -> bool:
+    if not isinstance(e, ast.Call):
+        return False
+    f = e.func
+    return (isinstance(f, ast.Name) and f.id == fname) or (isinstance(f, ast.Attribute) and f.attr == fname)
+
+
+def tr_check_scalar(fn: ast.FunctionDef) -> str:
+    """the guard chain of check_scalar: `if K is not None and COND: raise E(...)` … `return value`"""
+    lines = ["def checkScalar (value : PyVal) (a : CheckArgs) : Except PyErr PyVal := do"]
+    body = [s for s in fn.body if not (isinstance(s, ast.Expr) and isinstance(s.value, ast.Constant))]
+    if not (body and isinstance(body[-1], ast.Return) and isinstance(body[-1].value, ast.Name)
+            and body[-1].value.id == "value"):
+        raise Unsupported("check_scalar does not end with `return value`")
+    for st in body[:-1]:
+        if not (isinstance(st, ast.If) and not st.orelse and len(st.body) == 1 and isinstance(st.body[0], ast.Raise)):
+            raise Unsupported(f"check_scalar statement {ast.unparse(st)[:60]}")
+        t = st.test
+        if not (isinstance(t, ast.BoolOp) and isinstance(t.op, ast.And) and len(t.values) == 2):
+            raise Unsupported("check_scalar guard shape")
+        g, cond = t.values
+        if not (isinstance(g, ast.Compare) and isinstance(g.ops[0], ast.IsNot) and isinstance(g.left, ast.Name)
+                and g.left.id in CHECK_KW):
+            raise Unsupported("check_scalar guard: `K is not None`")
+        k = g.left.id
+        exc = st.body[0].exc
+        ename = exc.func.id if isinstance(exc, ast.Call) and isinstance(exc.func, ast.Name) else None
+        err = {"TypeError": "PyErr.typeError", "ValueError": "PyErr.valueError"}.get(ename)
+        if err is None:
+            raise Unsupported(f"check_scalar raises {ename}")
+        lines.append(f"  if let some {k} := a.{k} then")
+        lines.append(f"    if {tr_check_cond(cond, k)} then throw {err}")
+    lines.append("  pure value")
+    return "\n".join(lines) + "\n"
+
+
+def tr_check_cond(c: ast.expr, k: str) -> str:
+    neg = False
+    if isinstance(c, ast.UnaryOp) and isinstance(c.op, ast.Not):
+        neg, c = True, c.operand
+    if is_call_to(c, "isinstance"):
+        if not (isinstance(c.args[0], ast.Name) and c.args[0].id == "value"
+                and isinstance(c.args[1], ast.Name) and c.args[1].id == k):
+            raise Unsupported("isinstance arguments")
+        r = f"(PyVal.isinstanceAny value {k})"
+    elif isinstance(c, ast.Compare) and len(c.ops) == 1 and isinstance(c.left, ast.Name) and c.left.id == "value" \
+            and isinstance(c.comparators[0], ast.Name) and c.comparators[0].id == k:
+        op = c.ops[0]
+        if type(op) in CMP_FN:
+            r = f"(← {CMP_FN[type(op)]} value {k})"
+        elif isinstance(op, ast.Eq):
+            r = f"(PyVal.pyEq value {k})"
+        elif isinstance(op, ast.NotEq):
+            r = f"(!(PyVal.pyEq value {k}))"
+        elif isinstance(op, ast.NotIn):
+            r = f"(!(PyVal.pyIn value {k}))"
+        elif isinstance(op, ast.In):
+            r = f"(PyVal.pyIn value {k})"
+        else:
+            raise Unsupported(f"comparison {ast.unparse(c)}")
+    else:
+        raise Unsupported(f"condition {ast.unparse(c)}")
+    return f"!{r}" if neg else r
+
+
+class TrAuto:
+    """auto_check: if/elif on `name == "…"`, check_scalar calls, isinstance tests, one for-loop"""
+
+    def stmts(self, body: list[ast.stmt], ind: str, var: str = "value") -> list[str]:
+        out: list[str] = []
+        for st in body:
+            if isinstance(st, ast.Expr) and isinstance(st.value, ast.Constant):
+                continue
+            if isinstance(st, ast.Expr) and is_call_to(st.value, "check_scalar"):
+                call = st.value
+                if not (call.args and isinstance(call.args[0], ast.Name)):
+                    raise Unsupported("check_scalar first argument")
+                out.append(f"{ind}let _ ← checkScalar {call.args[0].id} {check_args(call)}")
+            elif isinstance(st, ast.If):
+                out += self.if_(st, ind, first=True)
+            elif isinstance(st, ast.For):
+                if not (isinstance(st.target, ast.Name) and isinstance(st.iter, ast.Name) and not st.orelse):
+                    raise Unsupported("for loop shape")
+                out.append(f"{ind}(PyVal.iter {st.iter.id}).forM (fun {st.target.id} => do")
+                out += self.stmts(st.body, ind + "  ")
+                out.append(f"{ind}  pure ())")
+            elif isinstance(st, ast.Return):
+                if not (isinstance(st.value, ast.Name) and st.value.id == "value"):
+                    raise Unsupported("auto_check return")
+                out.append(f"{ind}return value")
+            else:
+                raise Unsupported(f"auto_check statement {ast.unparse(st)[:60]}")
+        return out
+
+    def test(self, t: ast.expr) -> str:
+        if (isinstance(t, ast.Compare) and isinstance(t.ops[0], ast.Eq) and isinstance(t.left, ast.Name)
+                and t.left.id == "name" and isinstance(t.comparators[0], ast.Constant)):
+            return f"name = \"{t.comparators[0].value}\""
+        if is_call_to(t, "isinstance") and isinstance(t.args[0], ast.Name):
+            return f"PyVal.isinstanceAny {t.args[0].id} [{', '.join(typ_list(t.args[1]))}]"
+        raise Unsupported(f"auto_check test {ast.unparse(t)}")
+
+    def if_(self, st: ast.If, ind: str, first: bool) -> list[str]:
+        out = [f"{ind}{'if' if first else 'else if'} {self.test(st.test)} then"]
+        out += self.stmts(st.body, ind + "  ") or [f"{ind}  pure ()"]
+        if st.orelse:
+            if len(st.orelse) == 1 and isinstance(st.orelse[0], ast.If):
+                out += self.if_(st.orelse[0], ind, first=False)
+            else:
+                out.append(f"{ind}else")
+                out += self.stmts(st.orelse, ind + "  ")
+        return out
+
+
+ENTRY_POINTS = [
+    # (module key, dotted function, entry name)
+    ("mean", "RatioOfMeans.__init__", "RatioOfMeans"),
+    ("mean", "Mean.__init__", "Mean"),
+    ("proportion", "SampleRatio.__init__", "SampleRatio"),
+    ("resampling", "Bootstrap.__init__", "Bootstrap"),
+    ("resampling", "Quantile.__init__", "Quantile"),
+    ("multiplicity", "adjust_fdr", "adjust_fdr"),
+    ("multiplicity", "adjust_fwer", "adjust_fwer"),
+    ("datasets", "_check_params", "make_data"),
+    ("experiment", "Experiment.__init__", "Experiment"),
+    ("mean", "RatioOfMeans.solve_power_from_aggregates", "solve_power"),
+]
+ENTRY_SOURCES = {"proportion": "metrics/proportion.py", "resampling": "metrics/resampling.py",
+                 "multiplicity": "multiplicity.py", "datasets": "datasets.py", "experiment": "experiment.py",
+                 "config": "config.py", "utils": "utils.py"}
+
+
+def entry_rows(mods: dict[str, ast.Module]) -> tuple[list[str], list[str]]:
+    """(entry, parameter) -> the check applied, extracted by pattern from every entry point"""
+    rows, args_defs = [], []
+    for mod, dotted, entry in ENTRY_POINTS:
+        try:
+            fn = find(mods, f"{mod}.{dotted}")
+        except Unsupported:
+            continue
+        params = {a.arg for a in fn.args.posonlyargs + fn.args.args + fn.args.kwonlyargs} - {"self"}
+        passthrough: set[str] = set()
+        for node in ast.walk(fn):
+            # Mean.__init__ forwards its parameters to RatioOfMeans.__init__
+            if (isinstance(node, ast.Call) and isinstance(node.func, ast.Attribute) and node.func.attr == "__init__"):
+                for kw in node.keywords:
+                    if isinstance(kw.value, ast.Name) and kw.value.id in params and kw.arg == kw.value.id:
+                        passthrough.add(kw.arg)
+        # the config fallback: `X if p is not None else get_config("name")`
+        fallback: dict[str, str] = {}
+        for node in ast.walk(fn):
+            if isinstance(node, ast.IfExp) and is_call_to(node.orelse, "get_config") and node.orelse.args \
+                    and isinstance(node.orelse.args[0], ast.Constant):
+                t = node.test
+                if isinstance(t, ast.Compare) and isinstance(t.left, ast.Name) and isinstance(t.ops[0], ast.IsNot):
+                    fallback[t.left.id] = node.orelse.args[0].value
+        # calls inside `for v in <param>[.values()]:` check the elements of the parameter
+        in_loop: dict[int, str] = {}
+        for node in ast.walk(fn):
+            if isinstance(node, ast.For) and isinstance(node.target, ast.Name):
+                it = node.iter
+                base = it.func.value if (isinstance(it, ast.Call) and isinstance(it.func, ast.Attribute)) else it
+                if isinstance(base, ast.Name) and base.id in params:
+                    for sub in ast.walk(node):
+                        if (isinstance(sub, ast.Call) and sub.args and isinstance(sub.args[0], ast.Name)
+                                and sub.args[0].id == node.target.id):
+                            in_loop[id(sub)] = base.id
+        seen = set()
+        for node in ast.walk(fn):
+            if not isinstance(node, ast.Call) or not node.args or not isinstance(node.args[0], ast.Name):
+                continue
+            each = id(node) in in_loop
+            p = in_loop.get(id(node), node.args[0].id)
+            if p not in params:
+                continue
+            if is_call_to(node, "auto_check") and len(node.args) > 1 and isinstance(node.args[1], ast.Constant):
+                kind = f"CheckKind.{'autoEach' if each else 'auto'} \"{node.args[1].value}\""
+                key = (entry, p, kind)
+                if key in seen:
+                    continue
+                seen.add(key)
+                fb = f"some \"{fallback[p]}\"" if p in fallback else "none"
+                rows.append(f"  {{ entry := \"{entry}\", param := \"{p}\", kind := {kind}, fromConfig := {fb} }}")
+            elif is_call_to(node, "check_scalar"):
+                nm = f"{entry}_{p}{'_each' if each else ''}".replace(".", "_")
+                key = (entry, p, "scalar" + ("Each" if each else ""))
+                if key in seen:
+                    continue
+                seen.add(key)
+                try:
+                    ca = check_args(node)
+                except Unsupported:      # non-literal bound / class outside the modelled universe
+                    rows.append(f"  {{ entry := \"{entry}\", param := \"{p}\", kind := CheckKind.opaque }}")
+                    continue
+                args_defs.append(f"def args_{nm} : CheckArgs := {ca}\n")
+                rows.append(f"  {{ entry := \"{entry}\", param := \"{p}\", "
+                            f"kind := CheckKind.{'scalarEach' if each else 'scalar'} }}")
+        for p in sorted(passthrough):
+            rows.append(f"  {{ entry := \"{entry}\", param := \"{p}\", kind := CheckKind.forwarded }}")
+    # set_config validates every keyword through auto_check(value, name); config_context calls set_config
+    try:
+        sc = find(mods, "config.set_config")
+        loop_ok = any(isinstance(n, ast.For) and any(is_call_to(c, "auto_check") and len(c.args) == 2
+                                                     and all(isinstance(a, ast.Name) for a in c.args)
+                                                     for c in ast.walk(n)) for n in ast.walk(sc))
+        if loop_ok:
+            for a in sc.args.kwonlyargs:
+                rows.append(f"  {{ entry := \"set_config\", param := \"{a.arg}\", kind := CheckKind.auto \"{a.arg}\" }}")
+        cc = find(mods, "config.config_context")
+        if any(is_call_to(n, "set_config") for n in ast.walk(cc)):
+            for a in cc.args.kwonlyargs:
+                rows.append(f"  {{ entry := \"config_context\", param := \"{a.arg}\", kind := CheckKind.forwarded }}")
+    except Unsupported:
+        pass
+    return rows, args_defs
+
+
+def generate_utils(src: Path) -> str:
+    mods = {"utils": ast.parse((src / "utils.py").read_text())}
+    for k, f in ENTRY_SOURCES.items():
+        mods[k] = ast.parse((src / f).read_text())
+    mods["mean"] = ast.parse((src / "metrics" / "mean.py").read_text())
+    cs = find(mods, "utils.check_scalar")
+    ac = find(mods, "utils.auto_check")
+    want = ["value", "name", "typ", "ge", "gt", "le", "lt", "ne", "in_"]
+    have = [a.arg for a in cs.args.args + cs.args.kwonlyargs]
+    if have != want:
+        raise Unsupported(f"check_scalar signature {have}")
+    auto = ["def autoCheck (value : PyVal) (name : String) : Except PyErr PyVal := do"] + TrAuto().stmts(ac.body, "  ")
+    rows, args_defs = entry_rows(mods)
+    return ("-- GENERATED by harness/translate.py from /repo/src/tea_tasting — do not edit.\n"
+            "import TeaTasting.Basic.PyVal\n\nnamespace Gen\n\n"
+            f"-- utils.check_scalar  (line {cs.lineno})\n" + tr_check_scalar(cs) + "\n"
+            f"-- utils.auto_check  (line {ac.lineno})\n" + "\n".join(auto) + "\n\n"
+            "-- arguments of the check_scalar calls found in the entry points\n" + "".join(args_defs) + "\n"
+            "def argsTable : List (String × CheckArgs) := [\n"
+            + ",\n".join(f"  (\"{d.split()[1][5:]}\", {d.split()[1]})" for d in args_defs) + "\n]\n\n"
+            "-- (entry point, parameter) ↦ check applied, extracted from the constructors / functions\n"
+            "def entryTable : List EntryRow := [\n" + ",\n".join(rows) + "\n]\n\nend Gen\n")
 
 
 def write_if_changed(path: Path, text: str) -> bool:
